@@ -9,8 +9,8 @@
 (*   generous - everything that could be read as a lenient spelling of the *)
 (*              type: for a year or date digits and hyphens only (unpadded *)
 (*              fields, compact forms, a leading minus); for a time an     *)
-(*              optional leading T, digits and colons, at most one zone    *)
-(*              sign after the first digit                                 *)
+(*              optional leading T, digits, colons and further Ts, at most *)
+(*              one zone sign after the first character                    *)
 (* A string outside the generous grammar is clearly not of the type:       *)
 (* always rejected.  In particular a plus sign never occurs in a year or   *)
 (* date, and a time never starts with a sign.                              *)
@@ -29,8 +29,8 @@ GenerousYD(x)   == HasDigit(x) /\ \A i \in 1..Len(x) : x[i] \in Digits \cup {"-"
 StrictTime(x)   == FALSE                                \* HH:MM:SS needs 8 characters
 GenerousTime(x) == /\ HasDigit(x)
                    /\ x[1] \in Digits \cup {"T"}
-                   /\ \A i \in 2..Len(x) : x[i] # "T"
                    /\ Count(x, "+") + Count(x, "-") <= 1
+                   \* (a T further right is tolerated by Python's parser in front of a zone, "11T-11": unspecified)
 
 Tri(strict, generous) == IF strict THEN "ACCEPT" ELSE IF ~generous THEN "REJECT" ELSE "UNSPEC"
 YDVerdict(x)   == Tri(StrictYear(x), GenerousYD(x))
